@@ -405,6 +405,13 @@ func runLive(r *rec, g *rng, tier, what, replay, out string, extra map[string]in
 			os.RemoveAll(root)
 			continue
 		}
+		if si == 3 && only <= 3 { // corpus: file and parent watched; unlink while open; the name is used again; close
+			liveScriptOpenUnlinkRecreate(r, s, u)
+			s.close()
+			os.Chdir(cwd)
+			os.RemoveAll(root)
+			continue
+		}
 		fs := &liveFS{u: u, open: map[string]*os.File{}}
 		lag := 1 + sg.intn(4) // how many steps may pass before the reader sees the stream
 		alive := true
@@ -490,6 +497,28 @@ func liveScriptF5(r *rec, s *session, u *universe) {
 			map[string]interface{}{"history": []string{"Add(d0/x)", "open d0/x", "unlink d0/x", "Add(d0)", "close fd"}})
 	}
 	s.quiescent("F5 script")
+}
+
+// liveScriptOpenUnlinkRecreate: d0 and d0/x are both watched; x is unlinked while a descriptor is
+// open (the kernel reports DELETE for the directory entry now and DELETE_SELF only at the last
+// close); the name is used again in between. The Remove of the old file must come before the Create of
+// the new one (C03), once (C02), and the new file is not watched through the old watch (C09).
+func liveScriptOpenUnlinkRecreate(r *rec, s *session, u *universe) {
+	d := filepath.Join(u.root, "d0")
+	f := filepath.Join(d, "x")
+	s.opAdd(r, d, 0x1f, false)
+	s.opAdd(r, f, 0x1f, false)
+	fh, err := os.Open(f)
+	check(err)
+	os.Remove(f)
+	s.pump(r)
+	check(os.WriteFile(f, []byte("new"), 0o644))
+	s.pump(r)
+	fh.Close()
+	s.pump(r)
+	os.WriteFile(f, []byte("again"), 0o644)
+	s.pump(r)
+	s.quiescent("open-unlink-recreate script")
 }
 
 // liveScriptRepoint: Add(lf -> f0); retarget lf -> f1; Add(lf); drain. lf must stay listed and a
